@@ -9,23 +9,27 @@ META = {
     "engine": "iring",
     "design_ref": "5/C36",
     "coq_targets": ["Props/Properties_C36.vo", "IRing/AlphabetCheck.vo"],
-    "coq_files": ["IRing/Alphabet.v", "IRing/AlphabetProofs.v", "IRing/AlphabetCheck.v", "Props/Properties_C36.v"],
-    "theorems": ["C36_alphabet_universe8", "C36_alpha_ok_reading", "C36_ir_list_partial", "C36_ir_list_refuted"],
-    "technique": "Coq: updateInnerRing proved for all lists (induction, NoDup/In); newAlphabetList decided on the property's whole finite domain "
-                 "(all subsets of an 8-key universe, 256x256 pairs) by vm_compute and lifted with forallb_forall; model tied to the Go code with real keys.PublicKeys",
-    "level_text": "C36_ir_list_partial is proved for all lists (unbounded); C36_alphabet_universe8 is a finite-domain theorem (level F): for every current alphabet of 1..7 keys "
-                  "and every main-network list at least that large over a universe of 8 keys the model new_alphabet_list returns nil or a list of the same size, duplicate-free, "
-                  "made of current/main-network keys, with 1..floor((n-1)/3) new keys. The clause 'the inner ring list contains no duplicates' is REFUTED "
-                  "(C36_ir_list_refuted, confirmed against the Go code): an inner-ring key outside the alphabet that is voted into the alphabet appears twice.",
-    "level_note": "partial: newAlphabetList is proved only on the bounded domain the property names (universe of 8 keys; no unbounded induction proof), and the inner-ring clause "
-                  "holds only with the premise 'no extra inner-ring key is among the new alphabet keys' (known finding ir-extra-key-promoted, not repaired). "
-                  "Trusted: Coq 8.16.1 kernel + vm_compute; hand-written model IRing/Alphabet.v over nat keys (key order = rank in the sorted universe), tied by differential "
-                  "comparison; processAlphabetSync itself is not executed (needs live morph clients): the harness composes newAlphabetList / updateInnerRing / sort as "
-                  "process_update.go does and the plug-in checks those three call sites syntactically. Chain clients, voting and notary updates are not modelled.",
+    "coq_files": ["IRing/Alphabet.v", "IRing/AlphabetProofs.v", "IRing/AlphabetInd.v", "IRing/AlphabetCheck.v", "Props/Properties_C36.v"],
+    "theorems": ["C36_alphabet_all", "C36_proposed_differs", "C36_same_alphabet_unchanged", "C36_alpha_res_ok_all", "C36_ir_list", "C36_ir_ok_reading",
+                 "C36_pipeline", "C36_alphabet_universe8", "C36_alpha_ok_reading", "C36_ir_list_old_refuted"],
+    "technique": "Coq: newAlphabetList proved for key lists of arbitrary length by induction over its two loops (loop invariants; sort handled as a permutation); "
+                 "updateInnerRing (repaired, fix 4b54a8d) proved for all lists (induction, NoDup/In); additionally newAlphabetList decided on the property's whole finite "
+                 "domain (all subsets of an 8-key universe, 256x256 pairs) by vm_compute; model tied to the Go code with real keys.PublicKeys",
+    "level_text": "All theorems are unbounded (any list length, any nat keys) except the extra finite-domain C36_alphabet_universe8. C36_alphabet_all: for duplicate-free current / "
+                  "main-network lists the model new_alphabet_list fails only on an empty current list or a shorter main-network list, returns nil exactly when floor((n-1)/3) = 0 or "
+                  "the first n keys of the sorted main-network list are all current keys, and otherwise a list of the same size, duplicate-free, made of current/main-network keys, "
+                  "with 1..floor((n-1)/3) keys outside the current alphabet (so it differs from it). C36_ir_list: for the repaired updateInnerRing the derived list is duplicate-free "
+                  "and z is in it iff (z was in the inner ring and is not a replaced key) or z is a new key -- no excluded class any more. C36_pipeline composes both as "
+                  "processAlphabetSync does. C36_ir_list_old_refuted keeps the counterexample for the code before the fix (an extra inner-ring key voted into the alphabet appeared twice).",
+    "level_note": "Every clause of the property text is proved on the model for all list sizes. Modelled, not verified: the model IRing/Alphabet.v is hand-written over nat keys "
+                  "(key order = rank in the sorted universe) and tied to the Go functions by differential comparison on the property's 8-key domain (+ random malformed lists), not "
+                  "by a mechanical translation; processAlphabetSync itself is not executed (needs live morph clients): the harness composes newAlphabetList / updateInnerRing / "
+                  "sort as process_update.go does and the plug-in checks those call sites syntactically. Chain clients, voting and notary updates are not modelled. "
+                  "Trusted: Coq 8.16.1 kernel (+ vm_compute for the finite theorem and the examples).",
     "trusted_base": ["Coq 8.16.1 kernel, vm_compute", "model IRing/Alphabet.v hand-written, tied by differential check",
                      "harness/cmd/iring, harness/hooks/pkg/innerring/processors/governance, lib/vlib.py"],
-    "assumptions": ["key lists fetched from the chains are duplicate-free", "the inner ring list contains the current alphabet",
-                    "universe of 8 keys for the alphabet theorem (the property's own bound)"],
+    "assumptions": ["key lists fetched from the chains are duplicate-free (NoDup premises)", "the inner ring list contains the current alphabet (incl premise)",
+                    "universe of 8 keys only for the additional finite theorem C36_alphabet_universe8"],
 }
 
 PRELUDE = ("From NV Require Import IRing.Alphabet IRing.AlphabetCheck.\nFrom Coq Require Import List Arith. Import ListNotations.\n")
